@@ -27,11 +27,13 @@ def run(ctx):
     ]
     ctx.not_covered += [
         "run-time behaviour of the emitted release function under a memory checker; any sequence of wrapper calls",
-        "wrapp.py (CPython reference counts and capsule destructors)",
+        "wrapp.py (CPython reference counts and capsule destructors) beyond the two single-ownership clauses of C06/T5 "
+        "(list conversion helpers; member setters): no run of generated extension modules",
         "the scan for a wrapped destructor in compute_idtor (slice starts after it)",
     ]
     I.capsule_dummy_intent(ctx, tabs)
     I.copy_array_capacity(ctx, tabs)
+    I.python_ownership(ctx, tabs)
     r0 = ctx.monitor("m_idtor", "search", 100, ctx.seed)
     ctx.bounded.append({"monitor": "m_idtor", "inputs_tried": r0["tried"], "violation": r0["violation"],
                         "kind": "bounded: generated text of 6 class libraries (same class name in two namespaces, nested namespaces, "
